@@ -230,6 +230,7 @@ func runC19(p *eng.Prog, r *eng.Report, tier string) {
 	iteratorValuePerItem(c, "C19.36", inC19)
 	decodeTargetsAreFresh(c, "C19.37", inC19)
 	encoderLoopsDoNotFilter(c, "C19.38", inC19)
+	decodersKeepEveryElement(c, "C19.39", inC19)
 	c.r.Floor("C19.34", "start-element edges in the token loops of the payload decoders", decoderLoopVisitsEveryChild(c, "C19.34", inC19), 1)
 	ntag := tagNamespaceAgreement(c, "C19.3", inC19)
 	c.r.Note("C19.3: %d decoder tags with an encoder counterpart examined", ntag)
@@ -826,4 +827,96 @@ func encoderLoopsDoNotFilter(c *cx, id string, in func(f *eng.Fn) bool) {
 		})
 	}
 	c.r.Floor(id, "element loops in encoders", n, 5)
+}
+
+// decodersKeepEveryElement (C19.39): an UnmarshalXML method that copies a
+// decoded list into the receiver keeps every element of it: (a) it stores no
+// single ELEMENT of a receiver slice (`recv.F[i] = x` replaces an entry that was
+// decoded earlier - "the same owner again" - and its content is lost), and
+// (b) a loop over a list of the decode target that appends to a receiver
+// field appends on every iteration. The listed decoders filter on purpose.
+var decodeFilters = map[string]string{
+	"stanza.(*Error).UnmarshalXML": "texts without character data carry nothing (C13.6)",
+}
+
+func decodersKeepEveryElement(c *cx, id string, in func(f *eng.Fn) bool) {
+	n := 0
+	for _, f := range c.allFns() {
+		if !in(f) || f.Decl == nil || f.Decl.Name.Name != "UnmarshalXML" || f.Decl.Recv == nil || f.Sig() == nil || f.Body == nil {
+			continue
+		}
+		if _, listed := decodeFilters[f.Short]; listed {
+			continue
+		}
+		recv := f.Sig().Recv()
+		g := f.Graph()
+		for _, w := range f.Writes() {
+			ix, ok := ast.Unparen(w.LHS).(*ast.IndexExpr)
+			if !ok {
+				continue
+			}
+			if _, isSlice := f.Info().TypeOf(ix.X).Underlying().(*types.Slice); !isSlice {
+				continue
+			}
+			if root := rootLocal(f, ix.X); root != nil && types.Object(root) == types.Object(recv) {
+				if _, isSel := ast.Unparen(ix.X).(*ast.SelectorExpr); isSel {
+					n++
+					c.r.Check(id, f, "element of a decoded list replaced", "W: a decoder appends to the receiver's lists, it does not overwrite an element it stored earlier", w.Stmt.Pos(), false, "an entry decoded earlier in the same document is replaced: its content is missing from the decoded value")
+				}
+			}
+		}
+		f.WalkBody(func(nd ast.Node) bool {
+			rs, ok := nd.(*ast.RangeStmt)
+			if !ok {
+				return true
+			}
+			vid, _ := rs.Value.(*ast.Ident)
+			if vid == nil || vid.Name == "_" {
+				return true
+			}
+			vo := f.Info().ObjectOf(vid)
+			isEmit := func(q eng.Point, x ast.Node) bool {
+				found := false
+				ast.Inspect(x, func(y ast.Node) bool {
+					cl, ok := y.(*ast.CallExpr)
+					if !ok || f.CalleeID(cl) != "builtin.append" || len(cl.Args) < 2 {
+						return !found
+					}
+					if root := rootLocal(f, cl.Args[0]); root == nil || types.Object(root) != types.Object(recv) {
+						return !found
+					}
+					for _, a := range cl.Args[1:] {
+						ast.Inspect(a, func(z ast.Node) bool {
+							if idn, ok := z.(*ast.Ident); ok && f.Info().ObjectOf(idn) == vo {
+								found = true
+							}
+							return !found
+						})
+					}
+					return !found
+				})
+				return found
+			}
+			has := false
+			ast.Inspect(rs.Body, func(y ast.Node) bool {
+				if st, ok := y.(ast.Stmt); ok && isEmit(eng.Point{}, st) {
+					has = true
+				}
+				return !has
+			})
+			if !has {
+				return true
+			}
+			body, head, done, okp := g.LoopPoints(rs)
+			if !okp {
+				return true
+			}
+			n++
+			okw := !g.Reachable(body, head, nil, isEmit) && !g.Reachable(body, done, nil, isEmit)
+			c.r.Check(id, f, "loop over "+f.Norm(rs.X, nil)+" keeps every element", "O: each iteration of a decoder's copy loop appends its element to the receiver's list", rs.Pos(), okw, "an iteration can go on without appending: the element is missing from the decoded value")
+			return true
+		})
+		n++
+	}
+	c.r.Floor(id, "UnmarshalXML methods examined for dropped elements", n, 20)
 }
